@@ -8,6 +8,7 @@
 (* from the repository's own test suite.                                                        *)
 EXTENDS EzApi, Json, IOUtils
 
+MC_AliasGroups == {}
 T_Empty == {}
 T_EmptySeq == <<>>
 TraceLog == ndJsonDeserialize(IOEnv.TRACE)
